@@ -5,8 +5,16 @@ namespace Pcore.Object
 /-- a given_or_derived attribute has no declared value (its implicit one is `undef`) -/
 def AttrGod (a : Attr) : Prop := a.kind = .givenOrDerived → ∀ v, a.value = some v → v = .undef
 
-theorem mkAttr_name {d : AttrDecl} {a : Attr} (h : mkAttr d = .ok a) : a.name = d.name := by
+theorem mkAttr_core {d : AttrDecl} {a : Attr} (h : mkAttr d = .ok a) :
+    mkAttrCore d = .ok a ∧ ¬(d.kind = .constant ∧ d.final = some false) := by
   unfold mkAttr at h
+  split at h
+  · cases h
+  · rename_i hc
+    exact ⟨h, by simpa using hc⟩
+
+theorem mkAttrCore_name {d : AttrDecl} {a : Attr} (h : mkAttrCore d = .ok a) : a.name = d.name := by
+  unfold mkAttrCore at h
   cases hd : d.dflt with
   | some v =>
     simp only [hd] at h
@@ -21,24 +29,31 @@ theorem mkAttr_name {d : AttrDecl} {a : Attr} (h : mkAttr d = .ok a) : a.name = 
     · cases h
     · cases h; rfl
 
-theorem mkAttr_kind_override {d : AttrDecl} {a : Attr} (h : mkAttr d = .ok a) : a.kind = d.kind ∧ a.override = d.override := by
-  unfold mkAttr at h
+theorem mkAttr_name {d : AttrDecl} {a : Attr} (h : mkAttr d = .ok a) : a.name = d.name :=
+  mkAttrCore_name (mkAttr_core h).1
+
+theorem mkAttrCore_fields {d : AttrDecl} {a : Attr} (h : mkAttrCore d = .ok a) :
+    a.kind = d.kind ∧ a.override = d.override ∧ a.final = d.isFinal := by
+  unfold mkAttrCore at h
   cases hd : d.dflt with
   | some v =>
     simp only [hd] at h
     split at h
     · cases h
     · split at h
-      · cases h; exact ⟨rfl, rfl⟩
+      · cases h; exact ⟨rfl, rfl, rfl⟩
       · cases h
   | none =>
     simp only [hd] at h
     split at h
     · cases h
-    · cases h; exact ⟨rfl, rfl⟩
+    · cases h; exact ⟨rfl, rfl, rfl⟩
 
-theorem mkAttr_god {d : AttrDecl} {a : Attr} (h : mkAttr d = .ok a) : AttrGod a := by
-  unfold mkAttr at h
+theorem mkAttr_kind_override {d : AttrDecl} {a : Attr} (h : mkAttr d = .ok a) : a.kind = d.kind ∧ a.override = d.override :=
+  ⟨(mkAttrCore_fields (mkAttr_core h).1).1, (mkAttrCore_fields (mkAttr_core h).1).2.1⟩
+
+theorem mkAttrCore_god {d : AttrDecl} {a : Attr} (h : mkAttrCore d = .ok a) : AttrGod a := by
+  unfold mkAttrCore at h
   cases hd : d.dflt with
   | some v =>
     simp only [hd] at h
@@ -61,6 +76,8 @@ theorem mkAttr_god {d : AttrDecl} {a : Attr} (h : mkAttr d = .ok a) : AttrGod a 
       split at hv
       · cases hv; rfl
       · cases hv
+
+theorem mkAttr_god {d : AttrDecl} {a : Attr} (h : mkAttr d = .ok a) : AttrGod a := mkAttrCore_god (mkAttr_core h).1
 
 /-! ### findAttr / eachAttribute -/
 
@@ -419,13 +436,17 @@ theorem define_wf {env : List OType} {d : Def} {t : OType} (henv : ∀ t' ∈ en
 
 /-- a declared attribute that is well-formed on its own (attribute.initialize raises nothing) -/
 def AttrDeclOK (d : AttrDecl) : Prop :=
+  ¬(d.kind = .constant ∧ d.final = some false) ∧
   match d.dflt with
   | some v => d.kind ≠ .derived ∧ d.kind ≠ .givenOrDerived ∧ inst d.ty v = true
   | none => d.kind ≠ .constant
 
 theorem mkAttr_succeeds {d : AttrDecl} (h : AttrDeclOK d) : ∃ a, mkAttr d = .ok a := by
-  unfold AttrDeclOK at h
+  obtain ⟨hfin, h⟩ := h
+  have hc : (d.kind == Kind.constant && d.final == some false) = false := by simpa using hfin
   unfold mkAttr
+  simp only [hc, Bool.false_eq_true, if_false]
+  unfold mkAttrCore
   cases hd : d.dflt with
   | some v =>
     simp only [hd] at h ⊢
@@ -435,12 +456,13 @@ theorem mkAttr_succeeds {d : AttrDecl} (h : AttrDeclOK d) : ∃ a, mkAttr d = .o
     simp only [hd] at h ⊢
     simp [h]
 
-/-- the declared attribute may stand where it stands: a fresh name without `override`, or a proper override (a constant
-    — final — is overridden by a constant only; the type may only narrow) -/
+/-- the declared attribute may stand where it stands: a fresh name without `override`, or a proper override (a final
+    member — every constant is final — is overridden only constant by constant; the type may only narrow) -/
 def OverrideOK (parent : OType) (d : AttrDecl) : Prop :=
   match findAttr parent d.name with
   | none => d.override = false
-  | some pa => d.override = true ∧ (pa.kind = .constant → d.kind = .constant) ∧ ∀ a, mkAttr d = .ok a → asg pa.ty a.ty = true
+  | some pa => d.override = true ∧ (pa.final = true → pa.kind = .constant ∧ d.kind = .constant) ∧
+      ∀ a, mkAttr d = .ok a → asg pa.ty a.ty = true
 
 theorem assertOverride_succeeds {parent : OType} {d : AttrDecl} {a : Attr} (h : OverrideOK parent d)
     (ha : mkAttr d = .ok a) : assertOverride parent a = .ok () := by
@@ -455,11 +477,12 @@ theorem assertOverride_succeeds {parent : OType} {d : AttrDecl} {a : Attr} (h : 
   | some pa =>
     simp only [hf] at h
     obtain ⟨h1, h2, h3⟩ := h
-    have hfin : (pa.kind == Kind.constant && a.kind != Kind.constant) = false := by
-      by_cases hc : pa.kind = .constant
-      · simp [hk, h2 hc]
+    have hfin : (pa.final && !(pa.kind == Kind.constant && a.kind == Kind.constant)) = false := by
+      by_cases hc : pa.final = true
+      · obtain ⟨hp, hdk⟩ := h2 hc
+        simp [hk, hp, hdk]
       · simp [hc]
-    simp [hfin, ho, h1, h3 a ha]
+    simp only [hfin, ho, h1, h3 a ha, Bool.false_eq_true, if_false, Bool.not_true]
 
 theorem defineAttrs_succeeds {parent : OType} {ds : List AttrDecl} (hok : ∀ d ∈ ds, AttrDeclOK d)
     (hov : ∀ d ∈ ds, OverrideOK parent d) : ∃ as, defineAttrs parent ds = .ok as := by
